@@ -392,3 +392,34 @@ Example unlocked_stop_reorders :
   t_out (fst (run_tops false true ops)) = [c; a; b] /\ snd (run_tops false true ops) = [a; b; c] /\
   t_out (fst (run_tops true true ops)) = [a; b] /\ snd (run_tops true true ops) = [a; b].
 Proof. repeat split. Qed.
+
+(* a client-level setter called AFTER the dump was enabled and AFTER SetCommonDumpOptions is seen by
+   the running Dumper: SetCommonDumpOptions re-points it at the struct the later setters edit *)
+Theorem setters_after_set_common_take_effect ops o ps w :
+  c_has (run_cops ops) = true ->
+  in_force (run_cops (ops ++ [CSetCommon o; CWithout ps])) =
+    Some (switch_off ps (client_set_options (c_opts (run_cops ops)) o)) /\
+  in_force (run_cops (ops ++ [CSetCommon o; CEnableAllTo w])) =
+    Some (set_out (client_set_options (c_opts (run_cops ops)) o) (Some w)).
+Proof.
+  intro H. unfold run_cops in *. rewrite !fold_left_app.
+  destruct (fold_left cstep ops c0) as [op h l own]. cbn [c_has c_opts] in *. subst h.
+  split; reflexivity.
+Qed.
+
+(* the variant in which SetCommonDumpOptions keeps a private copy while the running Dumper reads the
+   caller's struct (g-m2): modelled as "the Dumper gets a struct of its own" *)
+Definition cstep_split (st : cstate) (op : cop) : cstate :=
+  match op with
+  | CSetCommon o =>
+      let o' := client_set_options (c_opts st) o in
+      if c_has st then mkC (Some o') true false (Some o') else mkC (Some o') false (c_linked st) (c_own st)
+  | _ => cstep st op
+  end.
+
+Example split_set_common_ignores_later_setters :
+  let o := mkOpts (Some 10%N) None None None None None None true true true true false in
+  let ops := [CEnableAllTo 17%N; CSetCommon o; CWithout [PRespB]] in
+  in_force (fold_left cstep_split ops c0) = Some o /\
+  in_force (run_cops ops) = Some (switch_off [PRespB] o).
+Proof. split; reflexivity. Qed.
